@@ -10,31 +10,35 @@ def PC.holdsLock : PC → Bool
   | _ => false
 /-- the call is published in `g.calls` (the closure runs strictly inside) -/
 def PC.inFlight : PC → Bool
-  | .n3 | .g0 | .g1 | .g2 | .g3 | .g4 | .g5 | .g6 | .g7 | .g8 | .m2 | .d0 | .d1 => true
+  | .n3 | .g0 | .g1 | .g2 | .g3 | .g4 | .g5 | .gp | .g6 | .g7 | .g8 | .m2 | .d0 | .d1 => true
   | _ => false
 def PC.preReg : PC → Bool
   | .n0 | .n1 | .n2 => true
   | _ => false
 def PC.owns : PC → Bool
-  | .n1 | .n2 | .n3 | .g0 | .g1 | .g2 | .g3 | .g4 | .g5 | .g6 | .g7 | .g8 | .m2 | .d0 | .d1 | .d2 | .d3 | .r0 => true
+  | .n1 | .n2 | .n3 | .g0 | .g1 | .g2 | .g3 | .g4 | .g5 | .gp | .g6 | .g7 | .g8 | .m2 | .d0 | .d1 | .d2 | .d3 | .r0 | .px => true
   | _ => false
 def PC.pubd : PC → Bool
-  | .n3 | .g0 | .g1 | .g2 | .g3 | .g4 | .g5 | .g6 | .g7 | .g8 | .m2 | .d0 | .d1 | .d2 | .d3 | .r0 => true
+  | .n3 | .g0 | .g1 | .g2 | .g3 | .g4 | .g5 | .gp | .g6 | .g7 | .g8 | .m2 | .d0 | .d1 | .d2 | .d3 | .r0 | .px => true
   | _ => false
 def PC.wgOne : PC → Bool
-  | .n2 | .n3 | .g0 | .g1 | .g2 | .g3 | .g4 | .g5 | .g6 | .g7 | .g8 | .m2 | .d0 | .d1 | .d2 | .d3 => true
+  | .n2 | .n3 | .g0 | .g1 | .g2 | .g3 | .g4 | .g5 | .gp | .g6 | .g7 | .g8 | .m2 | .d0 | .d1 | .d2 | .d3 => true
   | _ => false
 def PC.noRes : PC → Bool
-  | .n1 | .n2 | .n3 | .g0 | .g1 | .g2 | .g3 | .g4 | .g5 | .g6 | .g7 | .g8 => true
+  | .n1 | .n2 | .n3 | .g0 | .g1 | .g2 | .g3 | .g4 | .g5 | .gp | .g6 | .g7 | .g8 => true
   | _ => false
 def PC.stored : PC → Bool
-  | .d0 | .d1 | .d2 | .d3 | .r0 => true
+  | .d0 | .d1 | .d2 | .d3 | .r0 | .px => true
+  | _ => false
+/-- the goroutine's call object is past `Done` -/
+def PC.after : PC → Bool
+  | .r0 | .px => true
   | _ => false
 def PC.waits : PC → Bool
   | .w0 | .w1 | .w2 => true
   | _ => false
 
-def finished (s : St) (c : CallId) : Prop := s.lret c = true ∨ (s.pc (s.leader c) = .r0 ∧ s.reg (s.leader c) = c)
+def finished (s : St) (c : CallId) : Prop := s.lret c = true ∨ ((s.pc (s.leader c)).after = true ∧ s.reg (s.leader c) = c)
 def published (s : St) (c : CallId) : Prop := s.lret c = true ∨ ((s.pc (s.leader c)).pubd = true ∧ s.reg (s.leader c) = c)
 
 structure Inv (s : St) : Prop where
@@ -44,7 +48,7 @@ structure Inv (s : St) : Prop where
   owns   : ∀ u, (s.pc u).owns = true → s.reg u < s.next ∧ s.leader (s.reg u) = u ∧ s.ekey (s.reg u) = s.key u
               ∧ s.lret (s.reg u) = false
   wg1    : ∀ u, (s.pc u).wgOne = true → s.wg (s.reg u) = 1
-  wg0    : ∀ u, (s.pc u = .n1 ∨ s.pc u = .r0) → s.wg (s.reg u) = 0
+  wg0    : ∀ u, (s.pc u = .n1 ∨ (s.pc u).after = true) → s.wg (s.reg u) = 0
   nores  : ∀ u, (s.pc u).noRes = true → s.fnres (s.reg u) = none
   tmpres : ∀ u, s.pc u = .m2 → s.fnres (s.reg u) = some (s.tmp u)
   stored : ∀ u, (s.pc u).stored = true → s.fnres (s.reg u) = some (s.cval (s.reg u))
@@ -66,16 +70,18 @@ structure Inv (s : St) : Prop where
   r4'    : ∀ u, (s.pc u = .g4 ∨ s.pc u = .g5) → s.ncreate (s.key u) = 0
   r5     : ∀ c v, c < s.next → s.fnres c = some v → v ≠ 0 → s.ncreate (s.ekey c) = 1 ∧ s.inst (s.ekey c) = v
   rets   : ∀ r ∈ s.rets, r.exec < s.next ∧ s.fnres r.exec = some r.val ∧ s.ekey r.exec = r.key
+  -- a panicking create
+  cv0    : ∀ u, (s.pc u).noRes = true → s.cval (s.reg u) = 0
 
 theorem inv_init : Inv init := by
-  constructor <;> simp [init, PC.holdsLock, PC.inFlight, PC.preReg, PC.owns, PC.wgOne, PC.noRes, PC.stored, PC.waits]
+  constructor <;> simp [init, PC.holdsLock, PC.inFlight, PC.preReg, PC.owns, PC.wgOne, PC.noRes, PC.stored, PC.waits, PC.after]
 
 macro "step_cases" hs:ident : tactic =>
   `(tactic| (unfold step at $hs:ident; split at $hs:ident <;> (try split at $hs:ident) <;> simp at $hs:ident <;> (try subst $hs:ident)))
 
 macro "close_step" hs:ident : tactic =>
   `(tactic| (step_cases $hs:ident <;>
-      simp [upd, PC.holdsLock, PC.inFlight, PC.preReg, PC.owns, PC.pubd, PC.wgOne, PC.noRes, PC.stored, PC.waits,
+      simp [upd, PC.holdsLock, PC.inFlight, PC.preReg, PC.owns, PC.pubd, PC.wgOne, PC.noRes, PC.stored, PC.waits, PC.after,
             finished, published] at * <;> grind))
 
 variable {s s' : St} {t : Tid} {x : Nat}
@@ -129,7 +135,7 @@ theorem wg1_step (h : Inv s) (hs : step s t x = some s') :
   close_step hs
 
 theorem wg0_step (h : Inv s) (hs : step s t x = some s') :
-    ∀ u, (s'.pc u = .n1 ∨ s'.pc u = .r0) → s'.wg (s'.reg u) = 0 := by
+    ∀ u, (s'.pc u = .n1 ∨ (s'.pc u).after = true) → s'.wg (s'.reg u) = 0 := by
   intro u hu
   have h1 := h.wg1 u
   have h2 := h.wg1 t
@@ -164,6 +170,16 @@ theorem stored_step (h : Inv s) (hs : step s t x = some s') :
   have h2 := h.stored t
   have h3 := h.tmpres u
   have h4 := h.tmpres t
+  have h5 := h.cv0 t
+  have h7 := h.owns u
+  have h8 := h.owns t
+  close_step hs
+
+theorem cv0_step (h : Inv s) (hs : step s t x = some s') :
+    ∀ u, (s'.pc u).noRes = true → s'.cval (s'.reg u) = 0 := by
+  intro u hu
+  have h1 := h.cv0 u
+  have h2 := h.cv0 t
   have h7 := h.owns u
   have h8 := h.owns t
   close_step hs
@@ -332,7 +348,7 @@ theorem inv_step (h : Inv s) (hs : step s t x = some s') : Inv s' :=
   ⟨lock_step h hs, flight_step h hs, prereg_step h hs, owns_step h hs, wg1_step h hs, wg0_step h hs,
    nores_step h hs, tmpres_step h hs, stored_step h hs, calls_step h hs, waits_step h hs, woken_step h hs,
    done_step h hs, lretlt_step h hs, writer_step h hs, r1_step h hs, r2_step h hs, r2'_step h hs, r3_step h hs,
-   r4_step h hs, r4'_step h hs, r5_step h hs, rets_step h hs⟩
+   r4_step h hs, r4'_step h hs, r5_step h hs, rets_step h hs, cv0_step h hs⟩
 
 theorem inv_reach {s : St} (h : Reach s) : Inv s := by
   induction h with
